@@ -51,6 +51,55 @@ fn orders(n: usize, k: usize) -> Vec<usize> {
     v
 }
 
+/// a few large graphs (hash-map growth, long adjacency lists, many parallel edges): deterministic
+pub fn big_graphs(sizes: &[usize]) -> Vec<GCase> {
+    let mut out = vec![];
+    let mut x = 0x9E3779B97F4A7C15u64;
+    let mut rnd = move |k: usize| {
+        x ^= x << 13;
+        x ^= x >> 7;
+        x ^= x << 17;
+        (x % k as u64) as usize
+    };
+    for &n in sizes {
+        // sparse random + a ring through everything + a hub + parallel edges with equal and distinct values
+        let mut edges: Vec<Tri> = vec![];
+        for i in 0..n {
+            edges.push((i as Key, ((i + 1) % n) as Key, (i % 5) as EV));
+        }
+        for _ in 0..2 * n {
+            edges.push((rnd(n) as Key, rnd(n) as Key, rnd(4) as EV));
+        }
+        for i in 1..n.min(40) {
+            edges.push((0, i as Key, 7));
+            edges.push((0, i as Key, (i % 3) as EV));
+        }
+        for i in 0..n.min(12) {
+            edges.push((i as Key, i as Key, (i % 2) as EV));
+        }
+        out.push(GCase { n, prio: (0..n as i32).map(|i| i * 3 - 50).collect(), edges });
+        // a DAG of chains with cross links (many components)
+        let mut dag: Vec<Tri> = vec![];
+        for i in 0..n - 1 {
+            if i % 7 != 6 {
+                dag.push((i as Key, (i + 1) as Key, 1));
+            }
+        }
+        for _ in 0..n / 2 {
+            let a = rnd(n - 1);
+            let b = a + 1 + rnd(n - 1 - a);
+            dag.push((a as Key, b as Key, 2));
+        }
+        // and a few back edges creating mid-size components
+        for k in 0..n / 25 {
+            let a = (k * 25 + 20).min(n - 1);
+            dag.push((a as Key, (k * 25) as Key, 3));
+        }
+        out.push(GCase { n, prio: vec![0; n], edges: dag });
+    }
+    out
+}
+
 // ------------------------------------------------------------------ C11
 
 #[derive(Clone, Debug, Serialize, Deserialize)]
@@ -280,6 +329,17 @@ pub fn run_c11(ctx: &mut Ctx) {
     ctx.stats.merge(enumerated);
     ctx.exhaustive = Some(!failed);
     ctx.stats.extra.insert("enumeration_bounds".into(), json!({"max_nodes": max_n, "graphs": (1..=max_n).map(|n| 1u64 << (n * n)).sum::<u64>(), "instances_per_graph": inst}));
+    {
+        let sizes: Vec<usize> = tier.pick(vec![64, 150, 300], vec![64, 150, 300, 700, 1500]);
+        let mut st = Stats::new();
+        for g in big_graphs(&sizes) {
+            wd.tick();
+            st.class("graphs.large-constructed");
+            scc_all(&SccCase { g, instances: 3 }, &mut st, true, None);
+        }
+        ctx.stats.merge(st);
+        ctx.stats.extra.insert("large_constructed_sizes".into(), json!(sizes));
+    }
     let cases = tier.pick(5000u32, 40_000u32);
     let random = parallel(tier.pick(8, 16), |w| {
         let mut st = Stats::new();
@@ -566,6 +626,17 @@ pub fn run_c12(ctx: &mut Ctx) {
     ctx.stats.merge(enumerated);
     ctx.exhaustive = Some(!failed);
     ctx.stats.extra.insert("enumeration_bounds".into(), json!(bounds.iter().map(|b| json!({"nodes": b.0, "max_edges": b.1})).collect::<Vec<_>>()));
+    {
+        let sizes: Vec<usize> = tier.pick(vec![64, 150, 300], vec![64, 150, 300, 700, 1500]);
+        let mut st = Stats::new();
+        for g in big_graphs(&sizes) {
+            wd.tick();
+            st.class("graphs.large-constructed");
+            serde_all(&g, 2, &mut st, true, None);
+        }
+        ctx.stats.merge(st);
+        ctx.stats.extra.insert("large_constructed_sizes".into(), json!(sizes));
+    }
     let cases = tier.pick(3000u32, 30_000u32);
     let random = parallel(tier.pick(8, 16), |w| {
         let mut st = Stats::new();
